@@ -205,6 +205,13 @@ fact('recov_checks_sizes', 'bool', coq_bool(has(rm, r'if\s*\(\s*size\s*>\s*remai
 fact('recov_checks_entries', 'bool', coq_bool(has(rm, r'if\s*\(\s*!\s*checkEntryBuffer\s*\(\s*metadata\s*\)\s*\)\s*\{\s*return\s+false\s*;\s*\}.*output\.push_back') and
      has(rdd, r'if\s*\(\s*!\s*checkEntryBuffer\s*\(\s*data\s*\)\s*\)\s*\{\s*return\s+false\s*;\s*\}.*output\.push_back')))
 
+# RecoverableVectorOutputStream::write: the growth protocol and the size update (C08)
+vo = src('include/binlog/detail/VectorOutputStream.hpp')
+rw = body_of(vo, r'RecoverableVectorOutputStream&\s+write\s*\(')
+fact('vos_grow_protocol', 'bool', coq_bool(has(rw, r'if\s*\(\s*_vector\.capacity\s*\(\s*\)\s*<\s*_vector\.size\s*\(\s*\)\s*\+\s*std::size_t\s*\(\s*size\s*\)\s*\)\s*\{.*grown\.resize\s*\(\s*sizeof\s*\(\s*std::uint64_t\s*\)\s*\)\s*;\s*grown\.insert\s*\(\s*grown\.end\s*\(\s*\)\s*,\s*_vector\.begin\s*\(\s*\)\s*\+\s*sizeof\s*\(\s*std::uint64_t\s*\)\s*,\s*_vector\.end\s*\(\s*\)\s*\)\s*;.*memcpy\s*\(\s*grown\.data\s*\(\s*\)\s*,\s*&magic\s*,\s*sizeof\s*\(\s*magic\s*\)\s*\)\s*;[^;]*setMagic\s*\(\s*0\s*\)\s*;[^;]*_vector\.swap\s*\(\s*grown\s*\)\s*;\s*\}\s*_vector\.insert\s*\(\s*_vector\.end\s*\(\s*\)\s*,\s*buffer\s*,\s*buffer\s*\+\s*size\s*\)\s*;\s*updateSize\s*\(\s*\)\s*;')))
+ch = body_of(se, r'Session::Channel::~Channel\s*\(')
+fact('channel_dtor_clears_magic_first', 'bool', coq_bool(has(ch, r'std::uint64_t\s+magic\s*=\s*0\s*;\s*memcpy\s*\(\s*_queue\.get\s*\(\s*\)\s*,\s*&magic\s*,\s*sizeof\s*\(\s*magic\s*\)\s*\)\s*;.*~Queue')))
+
 out = ['(* GENERATED by tools/srcfacts.py from %s -- do not edit *)' % vlib.REPO,
        'From Coq Require Import List NArith String.', 'Import ListNotations.', 'Local Open Scope string_scope.', ''] + facts + ['']
 os.makedirs(os.path.join(vlib.COQ, 'Gen'), exist_ok=True)
